@@ -15,6 +15,8 @@
 #include <eventpp/utilities/orderedqueuelist.h>
 #include <eventpp/utilities/conditionalfunctor.h>
 #include <eventpp/utilities/argumentadapter.h>
+#include <eventpp/utilities/counterremover.h>
+#include <eventpp/utilities/conditionalremover.h>
 
 #ifndef VH_THREADING
 #define VH_THREADING eventpp::SingleThreading
@@ -267,9 +269,23 @@ struct QueueBox {
 	}
 };
 
+// condition of a ConditionalRemover with the queue as target: remove when value % m == r
+struct CondRem {
+	long m, r;
+#if VH_INCLUDE
+	bool operator()(const KeyT &, const Payload & a) const { return m != 0 && ((a.v % m) + m) % m == r; }
+#else
+	bool operator()(const Payload & a) const { return m != 0 && ((a.v % m) + m) % m == r; }
+#endif
+};
+
 // the ledger-counted callback object inside a stored listener, whatever it is wrapped in
 static CbFn * cbOf(Queue::Callback & cb) {
 	if(auto p = cb.target<CbFn>()) return p;
+	using CW = eventpp::CounterRemover<Queue>::Wrapper<CbFn>;
+	if(auto p = cb.target<CW>()) return &p->data->listener;
+	using DW = eventpp::ConditionalRemover<Queue>::ItemByCondition<CbFn, CondRem>;
+	if(auto p = cb.target<DW>()) return &p->data->listener;
 	if(auto p = cb.target<CondWrapped>()) return &p->func;
 	if(auto p = cb.target<Adapted>()) return &p->func.inner;
 	return nullptr;
@@ -341,7 +357,8 @@ struct World {
 			res("unit");
 			return;
 		}
-		if(op == "listen" || op == "listenfront" || op == "listenbefore" || op == "listencond" || op == "listenadapt") {
+		if(op == "listen" || op == "listenfront" || op == "listenbefore" || op == "listencond" || op == "listenadapt"
+			|| op == "listencounted" || op == "listencondrem") {
 			long key = c.n(1);
 			long id = nextId++;
 			CbFn fn(c.n(2), id, key, 0);
@@ -349,6 +366,13 @@ struct World {
 			if(op == "listen") h = q.appendListener(mkKey(key), fn);
 			else if(op == "listencond") h = q.appendListener(mkKey(key), eventpp::conditionalFunctor(fn, CondFn{c.n(3), c.n(4)}));
 			else if(op == "listenadapt") h = q.appendListener(mkKey(key), eventpp::argumentAdapter<WideFn::Proto>(WideFn{fn}));
+			else if(op == "listencounted" || op == "listencondrem") {
+				// the event is handed over in a variable of the caller that changes right afterwards: the remover keeps its own copy
+				KeyT keyVar = mkKey(key);
+				if(op == "listencounted") h = eventpp::counterRemover(q).appendListener(keyVar, fn, (int)c.n(3));
+				else h = eventpp::conditionalRemover(q).appendListener(keyVar, fn, CondRem{c.n(3), c.n(4)});
+				keyVar = mkKey(nkeys + 7);
+			}
 			else if(op == "listenfront") h = q.prependListener(mkKey(key), fn);
 			else h = q.insertListener(mkKey(key), fn, handleOf(c.n(3)));
 			if((size_t)id >= handles.size()) handles.resize(id + 1);
